@@ -229,3 +229,87 @@ def as_lin(x):
     if isinstance(x, Q):
         return x
     return x
+
+
+def to_lin(x, log):
+    """cell of a (possibly logarithmic) grid as a linear-space value."""
+    from symx.dom import LogQ, Q
+    if isinstance(x, LogQ):
+        return x.q
+    if isinstance(x, Q):
+        return x
+    f = float(x)
+    if log:
+        return Q.of(0) if f == -math.inf else (Q.of(1) if f == 0.0 else Q.of(math.exp(f)))
+    return Q.of(f)
+
+
+class LinOps:
+    """Linear-space reference primitives over the likelihood object's index tables (used
+    by reference implementations in harnesses; values are Q / floats)."""
+
+    @staticmethod
+    def val(x):
+        from symx.dom import LogQ
+        return x.q if isinstance(x, LogQ) else x
+
+    @staticmethod
+    def row(r):
+        out = np.empty(len(r), dtype=object)
+        out[:] = [to_lin(x, True) if not isinstance(x, float) or x in (-math.inf,)
+                  else x for x in r]
+        from symx.dom import LogQ
+        if any(isinstance(x, LogQ) for x in r) or any(isinstance(x, float) and x == -math.inf for x in r):
+            out[:] = [to_lin(x, True) for x in r]
+        else:
+            out[:] = [to_lin(x, False) for x in r]
+        return out
+
+    @staticmethod
+    def scale(frac, arr):
+        from symx.uf import sym_pow
+        out = np.empty(len(arr), dtype=object)
+        out[:] = [v if float(frac) == 1.0 else sym_pow(v, frac) for v in arr]
+        return out
+
+    @staticmethod
+    def lower(lik, arr):
+        return arr[lik.to_lower_tri]
+
+    @staticmethod
+    def upper(lik, arr):
+        return arr[lik.to_upper_tri]
+
+    @staticmethod
+    def _liks(lik, e):
+        L = lik.get_mut_lik_lower_tri(e)
+        return LinOps.row(L)
+
+    @staticmethod
+    def inside(lik, arr, e):
+        return np.add.reduceat(arr * LinOps._liks(lik, e), lik.row_indices[0])
+
+    @staticmethod
+    def outside(lik, arr, e):
+        L = LinOps._liks(lik, e)[np.concatenate(lik.row_indices)]
+        return np.add.reduceat(arr * L, lik.col_indices)
+
+    @staticmethod
+    def mul(a, b):
+        return a * b
+
+    @staticmethod
+    def div(a, d):
+        return a / d
+
+    @staticmethod
+    def div0(a, b):
+        out = np.empty(len(a), dtype=object)
+        vals = []
+        for x, y in zip(a, b):
+            r = x / y
+            if isinstance(r, float) and r != r:
+                r = 0.0
+            vals.append(r)
+        out[:] = vals
+        return out
